@@ -35,7 +35,13 @@ pub fn doc_field(k: usize) -> P {
             P::Pos { ty: Ty::Os, strict: Strict::Any, metavar: "PY".into(), help: None },
         ])
         .many(),
-        13 => arg(h(Names::both('q', "quebec"), "repeated argument\n\nsecond paragraph only in full help"), "QUE").many(),
+        // (its help is a sequence of separately styled fragments with the paragraph break in the
+        // middle: the short form stops there and the rows after it must be intact)
+        13 => arg(
+            Names { help: Some(DocSpec(vec![(Sty::Text, "repeated ".into()), (Sty::Lit, "argument".into()), (Sty::Text, "\n\nsecond paragraph only in ".into()), (Sty::Em, "full".into()), (Sty::Text, " help".into())])), ..Names::both('q', "quebec") },
+            "QUE",
+        )
+        .many(),
         14 => P::Optional(P::Seq(vec![arg(h(Names::long("romeo"), "group member one"), "ROM"), P::Switch(h(Names::short('s'), "group member two"))]).bx(), false),
         // a titled group whose first member is hidden: the visible rest must still be listed
         15 => P::GroupHelp(P::Seq(vec![P::Switch(h(Names::long("tango-hidden"), "hidden first member")).hide(), arg(h(Names::long("tango"), "visible group member"), "TAN"), P::Switch(h(Names::short('t'), "another visible member"))]).bx(), DocSpec::plain("Group with a hidden head")),
